@@ -30,6 +30,8 @@ func runC11(r *engine.Run) {
 	r.Rule("AGREE-persist", "see C10: every field Serialize writes is read back by DeserializeNode (a reopened trie is rebuilt from exactly what was saved)")
 	r.Rule("DOM-memo", "see C09: CalcHash stores what it recomputes (Save writes the node under Hash())")
 	r.Rule("AGREE-decode", "see C10: DeserializeNode accumulates a branch's weight from the child weights it reads and stores every accepted child entry into a child slot; shortNode.Serialize fills the persisted value reference from the value's Hash() and Weight()")
+	r.Rule("AGREE-sync", "the storage batch's Commit(sync) passes pebble.Sync exactly on the path where its sync parameter is true and pebble.NoSync where it is false (a commit the caller asked to be durable is fsynced)")
+	r.Rule("DOM-cleanfail", "in delete no store dirty = true can be followed by a recursive delete call (nodes are marked only after the delete below them returned): a failed delete (absent key) leaves its search path clean, so the next commit does not re-save unchanged nodes")
 	r.NotDec = append(r.NotDec, "that a reopened trie is observationally identical (value-level)", "atomicity of the storage engine's batches (the atomic unit by the property's quantifier)")
 	domSave(r)
 	domCreated(r, "DOM-created")
@@ -40,6 +42,8 @@ func runC11(r *engine.Run) {
 	whoDirtyClear(r)
 	domUnchanged(r, "DOM-unchanged")
 	refShared(r, "REF-shared")
+	agreeSync(r, "AGREE-sync")
+	domCleanFail(r, "DOM-cleanfail")
 	agreePersist(r, "AGREE-persist")
 	domMemo(r, "DOM-memo")
 	agreeDecode(r, "AGREE-decode")
@@ -708,4 +712,125 @@ func chanEvents(f *ssa.Function, ch ssa.Value) []chanEvent {
 		}
 	})
 	return out
+}
+
+// agreeSync: the storage batch honours the caller's durability request:
+// pebble.Sync is passed to the batch commit exactly where the sync parameter is
+// true, pebble.NoSync where it is false.
+func agreeSync(r *engine.Run, rule string) {
+	f, err := r.P.Func("core/util/storage/kv", "batch", "Commit")
+	if err != nil || f == nil || len(f.Blocks) == 0 {
+		r.Anchor(rule, fmt.Errorf("unresolved anchor: kv batch Commit"))
+		return
+	}
+	r.Touch(f)
+	syncP := f.Params[1]
+	optName := func(v ssa.Value) string {
+		if ld, ok := v.(*ssa.UnOp); ok {
+			if g, ok := ld.X.(*ssa.Global); ok {
+				return g.Name()
+			}
+		}
+		if mi, ok := v.(*ssa.MakeInterface); ok {
+			return optNameOf(mi.X)
+		}
+		return ""
+	}
+	_ = optName
+	n := 0
+	o := ord{}
+	check := func(v ssa.Value, at *ssa.BasicBlock, pos string) {
+		name := optNameOf(v)
+		if name != "Sync" && name != "NoSync" {
+			r.Undec(rule, o.next(fn(f)+"|option"), pos, "the write option handed to the store is not one of pebble.Sync / pebble.NoSync")
+			return
+		}
+		n++
+		atoms, ok := engine.AtomsOn(f, at)
+		t, had := atoms[engine.ValKey(syncP)]
+		good := ok && had && t == (name == "Sync")
+		r.Check(good, rule, o.next(fn(f)+"|"+name), pos, "pebble."+name+" is used exactly where the sync parameter is "+fmt.Sprint(name == "Sync"),
+			"the batch commit passes pebble."+name+" on a path where the caller's sync flag is not "+fmt.Sprint(name == "Sync")+": a commit the caller asked to be durable is not fsynced (a crash loses the committed root), or the reverse")
+	}
+	engine.Instrs(f, func(in ssa.Instruction) {
+		c, ok := in.(*ssa.Call)
+		if !ok || !extCalleeIs(c, "cockroachdb/pebble", "Batch", "Commit") {
+			return
+		}
+		opt := c.Call.Args[1]
+		if ph, ok := opt.(*ssa.Phi); ok {
+			for i, e := range ph.Edges {
+				check(e, ph.Block().Preds[i], r.P.Pos(c.Pos()))
+			}
+			return
+		}
+		check(opt, c.Block(), r.P.Pos(c.Pos()))
+	})
+	if n < 2 {
+		r.Anchor(rule, fmt.Errorf("unresolved anchor: %d write options in the kv batch Commit", n))
+	}
+}
+
+func optNameOf(v ssa.Value) string {
+	for {
+		switch x := v.(type) {
+		case *ssa.MakeInterface:
+			v = x.X
+			continue
+		case *ssa.ChangeType:
+			v = x.X
+			continue
+		case *ssa.UnOp:
+			if g, ok := x.X.(*ssa.Global); ok {
+				return g.Name()
+			}
+		case *ssa.Global:
+			return x.Name()
+		}
+		return ""
+	}
+}
+
+// domCleanFail: a delete that fails (the key is not there) leaves no trace: in
+// delete no store of dirty = true can be followed by an error return. A path
+// marked dirty by a failed delete is re-saved by the next commit under its
+// unchanged hashes and listed as created, so a rollback deletes checkpoint
+// nodes.
+func domCleanFail(r *engine.Run, rule string) {
+	f := wfn(r, rule, "delete")
+	if f == nil {
+		return
+	}
+	var recs []*ssa.Call
+	engine.Instrs(f, func(in ssa.Instruction) {
+		if c, ok := in.(*ssa.Call); ok && c.Call.StaticCallee() == f {
+			recs = append(recs, c)
+		}
+	})
+	n := 0
+	o := ord{}
+	engine.Instrs(f, func(in ssa.Instruction) {
+		st, ok := in.(*ssa.Store)
+		if !ok {
+			return
+		}
+		if fld := engine.FieldOf(st.Addr); fld == nil || fld.Name() != "dirty" {
+			return
+		}
+		if k, ok := st.Val.(*ssa.Const); !ok || k.Value == nil || k.Value.ExactString() != "true" {
+			return
+		}
+		n++
+		bad := ""
+		for _, c := range recs {
+			if engine.ReachableAfter(st, c) {
+				bad = r.P.Pos(c.Pos())
+			}
+		}
+		r.Check(bad == "", rule, o.next(fn(f)+"|dirty"), r.P.Pos(st.Pos()), "the node is marked dirty only after the recursive delete below it has returned",
+			"delete marks a node dirty before the recursive delete below it (at "+bad+") has succeeded: a delete of an absent key leaves its search path dirty, the next commit re-saves those nodes under their unchanged hashes and records them as created, and a rollback then deletes checkpoint nodes")
+	})
+	if n < 2 || len(recs) < 2 {
+		r.Anchor(rule, fmt.Errorf("unresolved anchor: %d dirty stores / %d recursive calls in delete", n, len(recs)))
+	}
 }
